@@ -9,6 +9,7 @@ Require Import Cadence.Proofs.WriterBase.
 Require Import Cadence.Proofs.WriterInv.
 Require Import Cadence.Proofs.WriterRun.
 Require Import Cadence.Proofs.WriterThms.
+Require Import Cadence.Proofs.WriterGreedy.
 
 (* an emit writes to the socket only when it must: only if the buffered bytes plus the
    metric plus the terminator do not fit strictly; every whole-line datagram it flushes
@@ -45,6 +46,46 @@ Qed.
 Theorem c19_greedy_optimal : forall cap sizes p,
   valid_partition cap sizes p -> greedy_count cap sizes <= length p.
 Proof. exact greedy_optimal. Qed.
+
+(* the global count: in a fault-free life in which every metric fits (and no line is empty) and
+   nothing is flushed explicitly, the number of datagrams carrying bytes is exactly the number of
+   blocks next-fit packing opens for the line sizes, every emit is acknowledged ... *)
+Theorem c19_count : forall c e (ms : list str) rs s,
+  Forall (fun m => 0 < length m + length e /\ length m + length e <= c) ms ->
+  run c e [] (map Emit ms) = (rs, s) ->
+  length (filter (fun a => match a_bytes a with [] => false | _ => true end) (lg s)) =
+    greedy_count c (map (fun m => length m + length e) ms) /\
+  Forall2 (fun m x => x = OOk (length m)) ms rs.
+Proof. exact datagram_count. Qed.
+
+(* ... hence it is the minimum over ALL in-order partitions of the lines into blocks that fit *)
+Theorem c19_optimal : forall c e (ms : list str) rs s p,
+  Forall (fun m => 0 < length m + length e /\ length m + length e <= c) ms ->
+  run c e [] (map Emit ms) = (rs, s) ->
+  valid_partition c (map (fun m => length m + length e) ms) p ->
+  length (filter (fun a => match a_bytes a with [] => false | _ => true end) (lg s)) <= length p.
+Proof.
+  intros c e ms rs s p F R V. destruct (datagram_count c e ms rs s F R) as [D _].
+  unfold dcount, nonempty, line_sizes in D. rewrite D. now apply greedy_optimal.
+Qed.
+
+(* with explicit flushes the segments between them are packed independently: [segs] are the
+   runs of metrics each closed by a flush, [last] the metrics after the last flush *)
+Theorem c19_count_segments : forall c e (segs : list (list str)) (last : list str) rs s,
+  Forall (Forall (fun m => 0 < length m + length e /\ length m + length e <= c)) segs ->
+  Forall (fun m => 0 < length m + length e /\ length m + length e <= c) last ->
+  run c e [] (concat (map (fun seg => map Emit seg ++ [Flush]) segs) ++ map Emit last) = (rs, s) ->
+  length (filter (fun a => match a_bytes a with [] => false | _ => true end) (lg s)) =
+    fold_right (fun seg a => greedy_count c (map (fun m => length m + length e) seg) + a) 0 segs
+    + greedy_count c (map (fun m => length m + length e) last) /\
+  Forall (fun x => exists k, x = OOk k) rs.
+Proof. exact datagram_count_segments. Qed.
+
+(* non-vacuity of the count: capacity 8, newline; sizes 4 4 | 8 | 2 (an exact fill in the middle) *)
+Example c19_count_witness :
+  let ms := [[1;2;3]; [4;5;6]; [7;7;7;7;7;7;7]; [9]]%N in
+  (length (lg (snd (run 8 [10%N] [] (map Emit ms)))), greedy_count 8 (map (fun m => length m + 1) ms)) = (3, 3).
+Proof. vm_compute. reflexivity. Qed.
 
 (* non-vacuity *)
 Example c19_witness :
